@@ -1,7 +1,24 @@
 #!/bin/bash
-# Build and run the repository's own test suite with the verification guard OFF (no -DYAKUSHIMA_VERIF anywhere).
-set -e
+# Build and run the repository's own test suite with the verification guard OFF (no -DYAKUSHIMA_VERIF anywhere),
+# then require every test of the pinned stable baseline (/root/.vp/BASELINE.json, 70 tests) to pass.
+# (iscan_concurrent_modify_test does not compile under -Werror on the pinned tree either and is not part of the baseline:
+#  the build keeps going past it.)
 B=${YK_BASELINE_BUILD:-/repo/_build}
-cmake -G Ninja -S /repo -B "$B" -DCMAKE_BUILD_TYPE=RelWithDebInfo -DCMAKE_CXX_FLAGS=-Wno-error > /dev/null
-cmake --build "$B" -j 16 > "$B/build.log" 2>&1 || { tail -50 "$B/build.log"; exit 1; }
-ctest --test-dir "$B" -j8 --timeout 900
+cmake -G Ninja -S /repo -B "$B" -DCMAKE_BUILD_TYPE=RelWithDebInfo -DCMAKE_CXX_FLAGS=-Wno-error > /dev/null || exit 1
+cmake --build "$B" -j 16 -- -k 0 > "$B/build.log" 2>&1
+ctest --test-dir "$B" -j8 --timeout 900 --output-junit "$B/junit_off.xml" > "$B/ctest_off.log" 2>&1
+tail -5 "$B/ctest_off.log"
+python3 - "$B/junit_off.xml" <<'PY'
+import json, sys, xml.etree.ElementTree as ET
+base = json.load(open('/root/.vp/BASELINE.json'))['stable_pass']
+want = set(x.split('::')[0] for x in base)
+ok = set()
+for tc in ET.parse(sys.argv[1]).getroot().iter('testcase'):
+    if tc.find('failure') is None and tc.find('error') is None and (tc.get('status') in (None, 'run')):
+        ok.add(tc.get('name'))
+missing = sorted(want - ok)
+print('baseline tests passing with guard off: %d/%d' % (len(want & ok), len(want)))
+if missing:
+    print('NOT PASSING:', missing)
+    sys.exit(1)
+PY
